@@ -26,10 +26,11 @@ def xsqrt(x):
     return Q - r if neg(r) else r
 
 def ed_add(p, q):
+    if p is None or q is None or len(p) != 2 or len(q) != 2: return None
     x1, y1 = p; x2, y2 = q
     k = D * x1 * y1 * x2 * y2 % Q
     return ((x1 * y2 + y1 * x2) * inv(1 + k) % Q, (y1 * y2 - A * x1 * x2) * inv(1 - k) % Q)
-def ed_neg(p): return ((-p[0]) % Q, p[1])
+def ed_neg(p): return None if p is None or len(p) != 2 else ((-p[0]) % Q, p[1])
 def on_curve(p): x, y = p; return (A * x * x + y * y - 1 - D * x * x * y * y) % Q == 0
 def aff(c):
     X, Y, Z, T = c
